@@ -20,6 +20,7 @@ ASSUMPTIONS = ['twin classes: same state function with remote=True hard-wired, s
 SHRINK = 'greedy'
 SHRINK_RUNS = 300
 TIME_BUDGET = {'quick': 150, 'thorough': 1500}
+FUZZ = {'quick': (2, 4000), 'thorough': (4, 200000)}     # coverage-guided shards: (processes, libFuzzer runs each)
 REQUIRED = {'quick': {'optin>=2': 300, 'cycle': 50, 'shape:siblings2': 2, 'shape:siblings3': 2, 'shape:shared': 2, 'shape:selfcycle': 2, 'no_setstate_class': 200,
                       'nondict_state': 200},
             'thorough': {'optin>=2': 10000, 'cycle': 500, 'no_setstate_class': 2000, 'nondict_state': 2000}}
